@@ -21,6 +21,7 @@ func Run(ctx *core.Ctx) {
 	ctx.Assumptions = append(ctx.Assumptions, "tree comparison ignores positions and the original spelling of string literals")
 	model(ctx)
 	family(ctx)
+	literals(ctx)
 	random(ctx, ctx.Pick(6000, 120000))
 	printNodes(ctx, ctx.Pick(1500, 20000))
 }
@@ -244,4 +245,38 @@ func checkPrint(ctx *core.Ctx, tag string) {
 	if c2 := canonPrint(p2); c2 != c1 {
 		ctx.Violation(core.Sig{Family: "print-command", Feature: "roundtrip-differs"}, fmt.Sprintf("%s printed as %s which parses differently", tag, printed), rep)
 	}
+}
+
+// literals: every literal class in the spellings that stress printing —
+// exponent-form and huge/tiny floats, integral floats beyond the integer
+// range, negative zero, hexadecimal and extreme integers, strings with every
+// escape, and map literals whose escaped keys are in every position.
+func literals(ctx *core.Ctx) {
+	srcs := []string{
+		"1e19", "6.02e23", "1e21", "1e22", "1.7976931348623157e308", "5e-324", "1e-7", "1.5e-10", "123456789012345678.0",
+		"9223372036854775808.0", "-9223372036854775808.0", "0.1", "1e6", "1e+6", "-1e19", "1.0", "-0.0", "0.0", "2.50", "1e0", "100.0e-2",
+		"0x0", "0x1F", "0xFFFFFFFF", "9223372036854775807", "-9223372036854775807", "0", "-1",
+		`'it\'s'`, `'back\\slash'`, `'nl\nx'`, `'tab\tcr\rbs\bff\f'`, `'\u00e9\u4e2d'`, `'é日本😀'`, `''`, `'}{'`, `'//'`, `'"'`,
+		"[]", "[:]", "[[], [:]]", "[1, [2, [3]]]",
+	}
+	keys := []string{`'a'`, `'it\'s'`, `'back\\slash'`, `'nl\nx'`, `'é'`, `'z z'`, `'\u0041'`, `'q"q'`}
+	for i := range keys {
+		for j := range keys {
+			if i == j {
+				continue
+			}
+			srcs = append(srcs, "["+keys[i]+": 1, "+keys[j]+": 'v']")
+			for k := range keys {
+				if k != i && k != j && (i+j+k)%3 == 0 {
+					srcs = append(srcs, "["+keys[i]+": 1, "+keys[j]+": [2], "+keys[k]+": ["+keys[i]+": 3]]")
+				}
+			}
+		}
+	}
+	for _, src := range srcs {
+		check(ctx, "literals", src, "", "literal")
+		check(ctx, "literals", "-("+src+")", "", "neg-literal")
+		check(ctx, "literals", src+" ?: [ "+src+" ]", "", "literal-in-operator")
+	}
+	ctx.Extra["literal_sources"] = len(srcs)
 }
